@@ -1,8 +1,8 @@
 (** C08 — symbol entropy coding is lossless and self-delimiting.
     This file only restates theorems proved in Proofs/ and prints their assumptions. *)
 From Coq Require Import FMapPositive.
-From Draco Require Import Base.Codec Model.Varint Model.RansSymbol Model.RansFloat Model.SymbolCoding
-  Proofs.RansSymbol_proofs Proofs.SymbolCoding_proofs.
+From Draco Require Import Base.Codec Model.Varint Model.RansSymbol Model.RansFloat Model.SymbolCoding Model.RansBound
+  Proofs.RansSymbol_proofs Proofs.SymbolCoding_proofs Proofs.RansBound_proofs.
 Local Open Scope Z_scope.
 
 (** rANS state invariant and step inversion: one rans_write keeps the state in [L, 256 L) (L = 4 * 2^P) and the
@@ -120,6 +120,98 @@ Theorem C08_dec_symbols_length : forall ver n nc pre bs syms r, (1 <= nc)%nat ->
 Proof. exact dec_symbols_length. Qed.
 Print Assumptions C08_dec_symbols_length.
 
+(** WRITE-AREA SUFFICIENCY (StartEncoding reserves, rans_write / write_end / EndEncoding write unchecked).
+    The classical rANS length bound, multiplicative form, for every valid table and every sequence of used symbols:
+    the k bytes pushed by rans_write satisfy 256^(4k) * (prod_i p_{s_i})^5 <= (2^P)^(5n), i.e.
+    8k <= 1.25 * sum_i log2(2^P / p_{s_i}) -- the slack over the ideal code length is the factor 5/4, no additive term. *)
+Theorem C08_rans_length_bound : forall P probs syms x stk, 0 <= P <= 20 -> all_nonneg probs -> zsum probs = 2 ^ P ->
+  (forall s, In s syms -> sym_used probs s) ->
+  rans_encode_syms P (arr_of_list (with_cum probs 0)) syms (rans_write_init P) = Some (x, stk) ->
+  rans_L P <= x < 256 * rans_L P /\
+  256 ^ (4 * zlen stk) * seq_den probs syms ^ 5 <= (2 ^ P) ^ (5 * zlen syms).
+Proof. intros P probs syms x stk HP Hnn Hsum. exact (rans_renorm_bytes_bound P HP probs Hnn Hsum syms x stk). Qed.
+Print Assumptions C08_rans_length_bound.
+
+(** For every table Create accepts (whatever the double-precision steps of Create return) on the histogram
+    [freqs] of the very sequence [syms] that is then encoded -- the relation EncodeRawSymbolsInternal and
+    EncodeTaggedSymbols establish: frequencies = dense (count_syms syms) --, and for every value E of
+    num_expected_bits_ that is accurate in the weak sense [ebits_ok] (5 * cross <= 8 * E + 96, cross the exact
+    sum_i f_i * log2(2^P / p_i); the C++ computes ceil(cross) in double with libm's log2, which is NOT modelled:
+    E is an input and [ebits_ok] the trusted accuracy assumption, implied by E >= 0.625 * cross - 12, in particular
+    by [ebits_close]: E >= cross - 12): every byte written between StartEncoding and the end of EndEncoding
+    (k renormalisation bytes, the 1..4 byte tail at offset k, the memmove behind the varint length prefix) lies
+    inside the rans_reserved E = (2E + 32 + 7) / 8 + 8 bytes StartEncoding resized the buffer by.
+    Slack shown: factor 2 / 1.25 = 1.6 on the cross entropy plus 12 bits. *)
+Theorem C08_write_area_sufficient : forall (F : Type) rnd (relf : Z -> F) scalef P n syms probs E st,
+  0 <= P <= 20 -> (forall s, In s syms -> 0 <= s < Z.of_nat n) ->
+  let freqs := dense (count_syms syms (PositiveMap.empty Z)) 0 n in
+  rans_create F rnd relf scalef P freqs = COk probs ->
+  ebits_ok P probs freqs E -> 0 <= E < 2 ^ 33 ->
+  rans_encode_syms P (arr_of_list (with_cum probs 0)) syms (rans_write_init P) = Some st ->
+  exists used, rans_area_used P st = Some used /\ used <= rans_reserved E /\ zlen (snd st) + 4 <= rans_reserved E.
+Proof. exact write_area_sufficient_hist. Qed.
+Print Assumptions C08_write_area_sufficient.
+
+(** The same for any valid table and any frequency table that bounds the occurrences of every symbol from above
+    (RAnsSymbolEncoder used directly; [hist_le]), and the stronger accuracy statement implies the weak one. *)
+Theorem C08_write_area_sufficient_general : forall P probs syms freqs E st, 0 <= P <= 20 ->
+  all_nonneg probs -> zsum probs = 2 ^ P ->
+  (forall s, In s syms -> sym_used probs s) -> hist_le syms freqs ->
+  ebits_ok P probs freqs E -> 0 <= E < 2 ^ 33 ->
+  rans_encode_syms P (arr_of_list (with_cum probs 0)) syms (rans_write_init P) = Some st ->
+  exists used, rans_area_used P st = Some used /\ used <= rans_reserved E /\ zlen (snd st) + 4 <= rans_reserved E.
+Proof. intros P probs syms freqs E st HP Hnn Hsum. exact (write_area_sufficient P HP probs Hnn Hsum syms freqs E st). Qed.
+Print Assumptions C08_write_area_sufficient_general.
+Theorem C08_ebits_close_suffices : forall P probs freqs E, 0 <= E -> all_nonneg probs -> (forall f, In f freqs -> 0 <= f) -> 0 <= P ->
+  ebits_close P probs freqs E -> ebits_ok P probs freqs E.
+Proof. exact ebits_close_ok. Qed.
+Print Assumptions C08_ebits_close_suffices.
+
+(** CREATE NEVER FAILS FOR THE LIBRARY'S CALLERS (they ignore its result).
+    Full statement wanted: create_ok (the Flocq binary64 instance) on the callers' tables.  Proved: the statement
+    for EVERY instance of the three double-precision steps that satisfies O1-O4 below; MISSING: the proof that the
+    Flocq instance (f64_rnd P, f64_rel P, f64_scale of Model/RansFloat.v) satisfies them (a rounding-error analysis
+    of four correctly rounded operations; the harness checks Create's result on every case instead):
+      O1  0 <= rnd t f  and  rnd t f * t <= f * 2^P + t      (the rounded share exceeds f/t * 2^P by at most 1)
+      O4  rnd t t <= 2^P                                     (f/f = 1 exactly)
+      O2  0 <= scalef (relf total) p <= p  for total > 2^P, p >= 2      (2^P/total < 1)
+      O3  scalef (relf total) is monotone on p >= 2.
+    The generic core: a table with fewer used symbols than 2^P probability slots is always accepted. *)
+Theorem C08_create_succeeds_partial : forall (F : Type) rnd (relf : Z -> F) scalef P, 0 <= P <= 20 ->
+  (forall t f, 0 < t -> 0 < f <= t -> 0 <= rnd t f /\ rnd t f * t <= f * 2 ^ P + t) ->
+  (forall t, 0 < t -> rnd t t <= 2 ^ P) ->
+  (forall total p, 2 ^ P < total -> 2 <= p -> 0 <= scalef (relf total) p <= p) ->
+  (forall total p q, 2 ^ P < total -> 2 <= p <= q -> scalef (relf total) p <= scalef (relf total) q) ->
+  forall freqs, (forall f, In f freqs -> 0 <= f) -> 0 < zsum freqs < 2 ^ 64 -> nused freqs < 2 ^ P ->
+  exists probs, rans_create F rnd relf scalef P freqs = COk probs.
+Proof. exact create_succeeds. Qed.
+Print Assumptions C08_create_succeeds_partial.
+
+(** EncodeRawSymbols: the precision is derived from the TRUE number of unique symbols [nu] of the array (counted
+    by ComputeShannonEntropy; PositiveMap.cardinal of the histogram in the model), the compression level (any
+    int: the adjustments saturate) and the clamps; Create is called on the dense histogram up to the largest
+    symbol.  EncodeTaggedSymbols: RAnsSymbolEncoder<5> on the 32 bit-length frequencies. *)
+Theorem C08_create_succeeds_for_callers_partial : forall (F : Type) rnd (relf : Z -> F) scalef P,
+  (forall t f, 0 < t -> 0 < f <= t -> 0 <= rnd t f /\ rnd t f * t <= f * 2 ^ P + t) ->
+  (forall t, 0 < t -> rnd t t <= 2 ^ P) ->
+  (forall total p, 2 ^ P < total -> 2 <= p -> 0 <= scalef (relf total) p <= p) ->
+  (forall total p q, 2 ^ P < total -> 2 <= p <= q -> scalef (relf total) p <= scalef (relf total) q) ->
+  (forall lvl syms, syms <> [] -> (forall s, In s syms -> 0 <= s) -> zlen syms < 2 ^ 64 ->
+     let cnt := count_syms syms (PositiveMap.empty Z) in
+     let nu := Z.of_nat (PositiveMap.cardinal cnt) in
+     (if 0 <? nu then Z.log2 nu else 0) + 1 <= 18 ->
+     P = rans_precision_bits (raw_bit_length nu lvl) ->
+     exists probs, rans_create F rnd relf scalef P (dense cnt 0 (Z.to_nat (zmax_list syms + 1))) = COk probs) /\
+  (forall tags, tags <> [] -> (forall t, In t tags -> 0 <= t < 32) -> zlen tags < 2 ^ 64 ->
+     P = rans_precision_bits 5 ->
+     exists probs, rans_create F rnd relf scalef P (dense (count_syms tags (PositiveMap.empty Z)) 0 32) = COk probs).
+Proof.
+  intros F rnd relf scalef P H1 H2 H3 H4. split.
+  - exact (create_succeeds_raw F rnd relf scalef P H1 H2 H3 H4).
+  - exact (create_succeeds_tagged F rnd relf scalef P H1 H2 H3 H4).
+Qed.
+Print Assumptions C08_create_succeeds_for_callers_partial.
+
 (** Non-vacuity. *)
 Example C08_example_raw :
   enc_symbols 1 7 1 [3; 1; 3; 3] = Some [1; 2; 4; 3; 1; 16; 3; 1; 48; 3; 0; 68; 130]
@@ -133,3 +225,55 @@ Proof. vm_compute. split; reflexivity. Qed.
 Example C08_example_reject : enc_symbols 0 7 1 [2 ^ 31] = None /\ enc_symbols 1 7 1 [2 ^ 18] = None
   /\ exists bs, enc_symbols 0 7 1 [2 ^ 31 - 1] = Some bs.
 Proof. vm_compute. repeat split. eexists; reflexivity. Qed.
+
+(** The hypotheses of C08_write_area_sufficient are satisfiable: [3;1;3;3] at 12 bits, E = 4 = ceil(cross). *)
+Example C08_example_write_area :
+  exists probs st, create_f64 12 (dense (count_syms [3; 1; 3; 3] (PositiveMap.empty Z)) 0 4) = COk probs /\
+    ebits_ok 12 probs (dense (count_syms [3; 1; 3; 3] (PositiveMap.empty Z)) 0 4) 4 /\
+    rans_encode_syms 12 (arr_of_list (with_cum probs 0)) [3; 1; 3; 3] (rans_write_init 12) = Some st /\
+    rans_area_used 12 st = Some 4 /\ rans_reserved 4 = 13.
+Proof.
+  eexists; eexists. split; [vm_compute; reflexivity|]. split; [unfold ebits_ok; vm_compute; intros H; discriminate H|].
+  split; [vm_compute; reflexivity|]. split; vm_compute; reflexivity.
+Qed.
+
+(** The theorem separates the two estimates of num_expected_bits_.  99900 x symbol 0 and 100 symbols occurring once,
+    12 bits precision: Create gives symbol 0 the probability 3996/4096 and the others 1/4096; the cross entropy
+    under that table is 4762.x bits, the encoder writes 585 + 3 bytes and EndEncoding touches 590 bytes of the
+    area.  With E = 4763 (the cross entropy, what the library computes) 1203 bytes are reserved and
+    [ebits_check] (the model's decision procedure for [ebits_ok]) accepts E.
+    The Shannon entropy of the data itself, 99900*log2(100000/99900) + 100*log2(100000) = 1805.2 bits, is below
+    2300 (the first conjunct is the 100th root of 100000^100000 <= 2^2300 * 99900^99900); an area sized from any
+    E <= 2300 holds at most 587 bytes: three bytes (at E = 1806: 126 bytes) less than what is written, and
+    [ebits_check] rejects every such E (it needs E >= 2965). *)
+Definition C08_dominated_freqs : list Z := 99900 :: repeat 1 100.
+Definition C08_dominated_syms : list Z := map Z.of_nat (seq 1 100) ++ repeat 0 (Z.to_nat 99900).
+Definition C08_dominated_probs : list Z :=
+  Eval vm_compute in match create_f64 12 C08_dominated_freqs with COk p => p | _ => [] end.
+Definition C08_dominated_state : rstate :=
+  Eval vm_compute in
+    match rans_encode_syms 12 (arr_of_list (with_cum C08_dominated_probs 0)) C08_dominated_syms (rans_write_init 12) with
+    | Some st => st | None => (0, []) end.
+Example C08_example_shannon_estimate_overflows :
+  1000 ^ 999 * 100000 <= 2 ^ 23 * 999 ^ 999 /\
+  create_f64 12 C08_dominated_freqs = COk C08_dominated_probs /\ nth 0 C08_dominated_probs 0 = 3996 /\
+  rans_encode_syms 12 (arr_of_list (with_cum C08_dominated_probs 0)) C08_dominated_syms (rans_write_init 12)
+    = Some C08_dominated_state /\
+  zlen (snd C08_dominated_state) = 585 /\ rans_area_used 12 C08_dominated_state = Some 590 /\
+  rans_reserved 4763 = 1203 /\ ebits_check 12 C08_dominated_probs C08_dominated_freqs 4763 = true /\
+  rans_reserved 2300 = 587 /\ rans_reserved 1806 = 464 /\
+  ebits_check 12 C08_dominated_probs C08_dominated_freqs 2300 = false /\
+  ebits_check 12 C08_dominated_probs C08_dominated_freqs 2964 = false.
+Proof.
+  split; [vm_compute; intros H; discriminate H|]. repeat split; vm_compute; reflexivity.
+Qed.
+
+(** What the premise of C08_create_succeeds_for_callers_partial excludes.  4097 distinct symbols: from the true count the
+    raw scheme derives bit length 13 and 19 bits of precision and Create succeeds; from a count of 0 (the value a
+    caller that skips the counting would pass) it derives bit length 1 and 12 bits, 4097 symbols do not fit 4096
+    probability slots, and Create returns false (its callers would go on with an unfinished table). *)
+Example C08_example_create_needs_true_count :
+  rans_precision_bits (raw_bit_length 4097 7) = 19 /\ create_ok 19 (repeat 1 (Z.to_nat 4097)) = true /\
+  rans_precision_bits (raw_bit_length 0 7) = 12 /\ create_f64 12 (repeat 1 (Z.to_nat 4097)) = CFalse /\
+  nused (repeat 1 (Z.to_nat 4097)) = 4097.
+Proof. repeat split; vm_compute; reflexivity. Qed.
